@@ -86,6 +86,21 @@ func opFacts(s *ast.Schema, doc *ast.QueryDocument, op *ast.OperationDefinition,
 				tags["f:dup-response-key"] = true
 			}
 		}
+		// one response key for different fields (only valid in fragments on types that cannot both apply)
+		keyNames := map[string]map[string]bool{}
+		for name, ks := range names {
+			for k := range ks {
+				if keyNames[k] == nil {
+					keyNames[k] = map[string]bool{}
+				}
+				keyNames[k][name] = true
+			}
+		}
+		for _, ns := range keyNames {
+			if len(ns) > 1 {
+				tags["f:dup-response-key-different-fields"] = true
+			}
+		}
 		for _, ks := range names {
 			if len(ks) > 1 {
 				tags["f:same-field-twice"] = true
